@@ -26,7 +26,14 @@ func (r *Runtime) newArrayObject() *arrayObject {
 func setArrayValues(a *arrayObject, values []Value) *arrayObject {
 	a.values = values
 	a.length = uint32(len(values))
-	a.objCount = len(values)
+	// holes (nil) are not elements: a count equal to the length is what marks an array as free of holes
+	cnt := 0
+	for _, v := range values {
+		if v != nil {
+			cnt++
+		}
+	}
+	a.objCount = cnt
 	return a
 }
 
